@@ -156,6 +156,15 @@ func GenerateUnit(w *World, sp *FuncSpec, opts UnitOpts) (res *UnitResult) {
 		x.reset()
 	}
 	x.runUnit()
+	// a callpre clause that no call site used would be a silent hole: the named callee is never called here
+	if sp != nil {
+		for name := range sp.CallPre {
+			if !x.callpreUsed[sp.Key()+"|"+name] {
+				res.Err = "callpre names a callee that this function never calls under a contract: " + name
+				return
+			}
+		}
+	}
 	if os.Getenv("GOVC_DEBUG") != "" {
 		for k, m := range x.loopWrites {
 			fmt.Println("loop", k, "writes:", sortedKeys(m))
@@ -499,7 +508,12 @@ func SolveUnits(units []*UnitResult, opts SolveOpts) {
 					defer locks[j.u].Unlock()
 					return j.u.Exec.scriptFor(o, j.part, cvc5, len(j.u.Exec.replayTerms) > 0)
 				}
-				r := Solve(mk, opts.TimeoutS, opts.Scratch, tag, "")
+				tmo := opts.TimeoutS
+				if o.Kind == "vacuity" && tmo > 3 {
+					// a contradiction is found quickly or not at all; a satisfiable state mostly ends in `unknown`
+					tmo = 3
+				}
+				r := Solve(mk, tmo, opts.Scratch, tag, "")
 				if r.Status != "unsat" && r.Status != "sat" && o.Kind != "vacuity" {
 					// second attempt: only the assumptions relevant to the goal (sound: fewer assumptions)
 					mk2 := func(cvc5 bool) string {
@@ -588,6 +602,21 @@ func SolveUnits(units []*UnitResult, opts SolveOpts) {
 				case "sat":
 					o.Status = "unsat" // discharged: precondition is satisfiable
 				case "unsat":
+					if o.Pre != nil {
+						// the path may simply be infeasible: then the state before the call is contradictory too
+						pre := o.Pre
+						mkp := func(cvc5 bool) string { return u.Exec.scriptFor(pre, 0, cvc5, false) }
+						ptag := nameSan.ReplaceAllString(o.Name, "_")
+						if len(ptag) > 150 {
+							ptag = ptag[:150]
+						}
+						rp := Solve(mkp, 3, opts.Scratch, ptag+".before", "")
+						if rp.Status == "unsat" {
+							o.Solver += " (infeasible path: the state before the call is unreachable as well)"
+							o.Status = "unsat"
+							break
+						}
+					}
 					o.Status = "sat"
 					o.Output = "precondition is contradictory (vacuous contract)\n" + o.Output
 				default:
